@@ -236,4 +236,14 @@ theorem foldl_keeps_fn (ops : MsgOps M K) (cat : K → K → K) (k : FnSetting) 
     simp only [List.foldl_cons]
     exact sameFn_trans k (ih (fun o' ho' => hpost o' (by simp [ho'])) _) (applyW_keeps_fn ops cat k wr o (hpost o (by simp)))
 
+/-- `EmptyWriteOption{}` -/
+def WOpt.isEmpty : WOpt M K → Bool
+  | .empty => true
+  | _ => false
+
+/-- the read options that do not concern Get/List: `EmptyReadOption{}`, `WithUpdatesOnly`, `WithBackpressure` -/
+def ROpt.isOther : ROpt M K → Bool
+  | .other => true
+  | _ => false
+
 end ScVerif.C01
